@@ -35,6 +35,16 @@ BASIC = ["object", "array", "string", "integer", "number", "boolean", "null"]
 
 # ---------------------------------------------------------------- documents
 def to_json(nd: list) -> dict:
+    """a trailing dict element of a node is a decoration: extra keywords copied into the schema object (e.g.
+    {"default": {...}}); every structural walker and the Coq printer ignore it"""
+    d = _to_json(nd)
+    if isinstance(nd[-1], dict):
+        d = dict(d)
+        d.update(nd[-1])
+    return d
+
+
+def _to_json(nd: list) -> dict:
     k = nd[0]
     if k == "ref":
         return {"$ref": "#/components/schemas/" + nd[1]}
@@ -1069,6 +1079,30 @@ def kind_cases() -> list[dict]:
     items = [["Ident", ["prim", "string"]], ["Kind", ["enum"]], ["Scores", ["arr", ["prim", "integer"]]],
              ["Thing", ["obj", [["ident", R("Ident")], ["kind", R("Kind")], ["scores", R("Scores")], ["kinds", ["arr", R("Kind")]]], ["ident", "kind"]]]]
     out += [{"schemas": [json.loads(json.dumps(items[i])) for i in o]} for o in ((0, 1, 2, 3), (3, 2, 1, 0), (1, 3, 0, 2))]
+    # cycles that CLOSE through an additionalProperties edge (the map-owning schema parsed second / first)
+    for via in (["map", R("Team")], ["map", ["arr", R("Team")]]):
+        items = [["Team", ["obj", [["members", ["arr", R("Member")]], ["title", ["prim", "string"]]], ["title"]]],
+                 ["Member", ["obj", [["teams", via], ["login", ["prim", "string"]]], ["login"]]]]
+        out += [{"schemas": [json.loads(json.dumps(items[i])) for i in o]} for o in itertools.permutations(range(2))]
+    items = [["Team", ["obj", [["lead", R("Member")], ["title", ["prim", "string"]]], []]],
+             ["Member", ["obj", [["login", ["prim", "string"]]], []]], ["Roster", ["map", R("Team")]],
+             ["Org", ["obj", [["rosters", ["map", R("Roster")]], ["teams", ["map", R("Team")]]], []]]]
+    out += [{"schemas": [json.loads(json.dumps(items[i])) for i in o]} for o in ((0, 1, 2, 3), (3, 2, 1, 0), (2, 0, 3, 1))]
+    # non-scalar defaults on OPTIONAL properties: inline object, $ref to a schema declaring an object default,
+    # oneOf/anyOf property, map property; scalar and array defaults next to them
+    owner = ["Owner", ["obj", [["name", ["prim", "string"]]], [], {"default": {"name": "nobody"}}]]
+    job = ["Job", ["obj", [["ident", ["prim", "string"]],
+                           ["options", ["obj", [["retries", ["prim", "integer"]]], [], {"default": {"retries": 3}}]],
+                           ["owner", R("Owner")],
+                           ["priority", ["prim", "integer", {"default": 5}]],
+                           ["labels", ["arr", ["prim", "string"], {"default": ["aa"]}]],
+                           ["either", ["oneof", [R("Owner"), ["prim", "string"]], {"default": {"name": "xx"}}]],
+                           ["anyway", ["anyof", [R("Owner"), ["prim", "integer"]], {"default": [1, 2]}]],
+                           ["extra", ["map", ["prim", "string"], {"default": {"kk": "vv"}}]]],
+                   ["ident"]]]
+    out += [{"schemas": json.loads(json.dumps(x))} for x in ([job, owner], [owner, job])]
+    child = ["Batch", ["allof", [R("Job"), ["obj", [["note", ["prim", "string", {"default": "nn"}]]], []]]]]
+    out.append({"schemas": json.loads(json.dumps([child, job, owner]))})
     num = ["Num", ["obj", [["value", ["prim", "number"]]], []]]
     sq = ["Sq", ["obj", [["side", ["prim", "number"]]], ["side"]]]
     for kw in ("anyof", "oneof"):
@@ -1105,15 +1139,57 @@ def chain(n: int, max_depth: int | None = None) -> dict:
 
 
 # ---------------------------------------------------------------- entry
+def placeholder_slots(schemas: dict | None) -> list[str]:
+    """in which kinds of slot of the registered schemas cycle/depth placeholder objects sit: "prop", "items", "member"
+    (oneOf/anyOf/allOf) - the slots ModelsEmitter.collect_nested_schemas descends into - or "map" (additionalProperties)"""
+    if not schemas:
+        return []
+    out: set[str] = set()
+    seen: set[int] = set()
+
+    def is_ph(x) -> bool:
+        return bool(x is not None and x.name and (x._is_circular_ref or x._max_depth_exceeded_marker
+                                                  or x._is_self_referential_stub or x._from_unresolved_ref))
+
+    def walk(sx, depth=0):
+        if sx is None or id(sx) in seen or depth > 6:
+            return
+        seen.add(id(sx))
+        for v in (sx.properties or {}).values():
+            if is_ph(v):
+                out.add("prop")
+            walk(v, depth + 1)
+        if sx.items is not None:
+            if is_ph(sx.items):
+                out.add("items")
+            walk(sx.items, depth + 1)
+        for lst in (sx.any_of, sx.one_of, sx.all_of):
+            for v in lst or []:
+                if is_ph(v):
+                    out.add("member")
+                walk(v, depth + 1)
+        ap = sx.additional_properties
+        if ap not in (None, True, False):
+            if is_ph(ap):
+                out.add("map")
+            walk(ap, depth + 1)
+    for k, v in schemas.items():
+        if is_ph(v):
+            out.add("registered")
+        walk(v)
+    return sorted(out)
+
+
 def run_one(inp: dict) -> dict:
     obs, schemas = run_impl(inp)
     fails = oracle(inp, obs, schemas)
+    slots = placeholder_slots(schemas)
     em_status = "skipped"
     if not isinstance(obs, str) and len(inp["schemas"]) <= 12 and names_in_domain(inp):
         em = emitted_models(inp)
         em_status = em.split(":")[0] if isinstance(em, str) else "ok"
         fails = fails + emitted_oracle(inp, em)
-    return {"input": inp, "obs": obs, "oracle_fail": fails, "dom": in_domain(inp), "emitted": em_status}
+    return {"input": inp, "obs": obs, "oracle_fail": fails, "dom": in_domain(inp), "emitted": em_status, "ph_slots": slots}
 
 
 def run_all(inputs: list[dict]) -> list[dict]:
@@ -1280,7 +1356,16 @@ def main(chk: Check, replay: dict | None = None) -> int:
             fired = [FINDING_BITS[k] for k in FINDING_BITS if (code >> k) & 1 and FINDING_BITS[k] in chk.known]
             if not fired:
                 continue
-            ok_classes = set().union(*(EXPLAINS[f] for f in fired))
+            collected = bool(set(c.get("ph_slots", [])) & {"prop", "items", "member", "registered"})
+            ok_classes: set = set()
+            for f in fired:
+                cl = set(EXPLAINS[f])
+                if f != "F02b" and not collected:
+                    # the placeholder findings explain a renamed / missing model module only through the emitter's name
+                    # de-collision, which sees placeholders in property / items / composition slots and registered
+                    # ones - not a placeholder that sits only in a map's value slot
+                    cl -= {"em-missing", "em-ref", "em-ref-untyped"}
+                ok_classes |= cl
             unexplained = [m for m in c["oracle_fail"] if fail_class(m) not in ok_classes]
             if unexplained:
                 chk.violation(c, f"(not explained by {'/'.join(fired)}) " + "; ".join(unexplained))
